@@ -355,7 +355,72 @@ def r7(ctx):
         raise AnalysisBroken('C04.R7: only %d notify implementations found' % n)
 
 
+def r10(ctx):
+    ctx.rule('C04.R10', 'a failed start of an arbitration leaves the device disarmed: in every startArbitration implementation that '
+             'stores the master address, each return of a result that is not known to be RESULT_OK is reached only with '
+             'm_arbitrationMaster reset to SYN - otherwise isArbitrating() stays true, no further request is started and the '
+             'queued requests are never completed', minimum=1)
+    import re
+    fb = ctx.fb
+    n = 0
+    seen = set()
+    for fn in fb.functions:
+        if not fn.name.endswith('::startArbitration') or not fn.blocks or fn.name in seen:
+            continue
+        seen.add(fn.name)
+        pn = fn.P(0)
+        arm = set(nid for nid, d, rhs, op, lhs in fn.assignments() if d == 'this.m_arbitrationMaster' and rhs is not None and fn.key(rhs) == pn)
+        disarm = set(nid for nid, d, rhs, op, lhs in fn.assignments() if d == 'this.m_arbitrationMaster' and rhs is not None and fn.val(rhs) == 170)
+        if not arm:
+            continue
+        ctx.touch(fn)
+        writes = {}
+        for nid, d, rhs, op, lhs in fn.assignments():
+            if d and ':' in d:
+                writes[nid] = d.split(':')[-1]
+        bad = []
+
+        def on_elem(user, e, path):
+            armed, okv = user
+            if e in arm:
+                armed = True
+            elif e in disarm:
+                armed = False
+            if e in writes:
+                okv = frozenset(x for x in okv if x != writes[e])
+            v = fn.nodes[e]
+            if v['k'] == 'ReturnStmt':
+                rv = v.get('val')
+                okret = rv is None or fn.val(rv) == 0 or fn.key(rv) in okv
+                if armed and not okret:
+                    bad.append(e)
+                return None
+            return (armed, okv)
+
+        def on_edge(user, b, j, dnf):
+            armed, okv = user
+            if len(dnf) == 1:
+                for a in dnf[0]:
+                    k, p = facts.atom_key(fn, a)
+                    m = re.match(r'^\((\w+) == #0\)$', k)
+                    if m and p:
+                        okv = frozenset(set(okv) | {m.group(1)})
+                    # the parameter itself being SYN means "disarm": nothing is armed on that path
+                    if k == '(%s == #170)' % pn and p:
+                        armed = False
+            return (armed, okv)
+        # a request to disarm (parameter == SYN) is not a start
+        facts.Explorer(fn, on_elem=on_elem, on_edge=on_edge).run(fn.entry, 0, (False, frozenset()))
+        n += 1
+        ctx.ob('C04.R10', fn, fn.body, not bad, 'error returns of %s' % fn.name.split('::', 1)[1],
+               'returns a possible error with the arbitration still armed at line(s) %s' % sorted(set(fn.line_of(x) for x in bad)) if bad
+               else 'every possible error return is reached disarmed')
+    if n < 1:
+        raise AnalysisBroken('C04.R10: no startArbitration implementation that stores the master address found')
+
+
 def run(ctx):
+    r10(ctx)
     r7(ctx)
     r1(ctx)
     r2(ctx)
@@ -366,3 +431,9 @@ def run(ctx):
     import rules.common as _common
     ctx.rule('C04.R8', 'arguments keep their roles across calls: at every call of a repository function in the request handling sources (master, slave and result of a request are not exchanged) whose arguments are named like parameters of the callee, no two of them are passed crosswise (argument i named like parameter j and argument j like parameter i)', minimum=4)
     _common.swapped_args_rule(ctx, 'C04.R8', ('src/ebusd/bushandler', 'src/ebusd/scan', 'src/lib/ebus/protocol'), 4)
+    import rules.C03 as _c03
+    ctx.borrow(_c03.r9, {'C03.R9': 'C04.R9'},
+               'signal loss is detected by the receive timeout: a remaining time that wraps around keeps recv() from '
+               'returning, the pending requests are never completed and their waiters never released')
+    import rules.C14 as _c14
+    _c14.clock_rule(ctx, 'C04.R11')
